@@ -24,7 +24,8 @@ Inductive c17_case :=
                                              (* per key: Get(latest); if present Update at that revision; then Create *)
         (watch_extra : N)                                     (* events delivered beyond those of the writes *)
 | KTtlChoice (prefix : bytes) (events_ttl : N) (k : bytes) (ttls : list N)   (* TTL arguments the engine saw for Create k *)
-| KEngineTtl (e : eng) (prefix : bytes) (ttl_ms : N) (evs : list tev).
+| KEngineTtl (e : eng) (prefix : bytes) (ttl_ms : N) (evs : list tev)
+             (fin : list (bytes * option (N * bytes) * wres)).   (* after the last dump, per key: Get(latest), then Create *)
 
 (* ---------- (a) scanner ---------- *)
 
@@ -77,9 +78,9 @@ Definition advance (e : eng) (now : N) (s : tst) : tst :=
 
 (* memkv removes at the timer, so a record written after the timer fired survives: timers are applied in
    time order together with the writes — the driver keeps dumps and writes apart from firing times *)
-Fixpoint ttl_run (e : eng) (prefix : bytes) (ttl_ms : N) (s : tst) (evs : list tev) : bool :=
+Fixpoint ttl_run (e : eng) (prefix : bytes) (ttl_ms : N) (s : tst) (evs : list tev) : option store :=
   match evs with
-  | [] => true
+  | [] => Some (sort_by rec_ltb (map t_rec (ts_store s)))
   | TCreate t k v rev :: r =>
       let s0 := advance e t s in
       let ttl := create_ttl ttl_ms prefix k in
@@ -92,7 +93,15 @@ Fixpoint ttl_run (e : eng) (prefix : bytes) (ttl_ms : N) (s : tst) (evs : list t
       ttl_run e prefix ttl_ms (put_ent e t 0 (RVer k rev tombstone) (put_ent e t 0 (RIdx k rev true) s0)) r
   | TDump t obs :: r =>
       let s0 := advance e t s in
-      store_eqb (sort_by rec_ltb (map t_rec (ts_store s0))) obs && ttl_run e prefix ttl_ms s0 r
+      if store_eqb (sort_by rec_ltb (map t_rec (ts_store s0))) obs then ttl_run e prefix ttl_ms s0 r else None
+  end.
+
+Fixpoint ttl_final_ok (V : store) (n : N) (fin : list (bytes * option (N * bytes) * wres)) : bool :=
+  match fin with
+  | [] => true
+  | (k, got, res) :: t =>
+      opt_eqb nb_eqb (get_at V max_rev k) got
+      && (let '(V', r) := do_create V k [120] n in wres_eqb r res && ttl_final_ok V' (n + 1) t)
   end.
 
 Definition c17_check (c : c17_case) : bool :=
@@ -105,7 +114,11 @@ Definition c17_check (c : c17_case) : bool :=
          end
       && (extra =? 0)
   | KTtlChoice prefix ettl k ttls => forallb (N.eqb (create_ttl ettl prefix k)) ttls && negb (is_nil ttls)
-  | KEngineTtl e prefix ttl_ms evs => ttl_run e prefix ttl_ms (mkTS [] []) evs
+  | KEngineTtl e prefix ttl_ms evs fin =>
+      match ttl_run e prefix ttl_ms (mkTS [] []) evs with
+      | Some V => ttl_final_ok V 1000000 fin
+      | None => false
+      end
   end.
 
 (* ---------- the property on the implementation's observations ---------- *)
@@ -235,5 +248,12 @@ Definition c17_oracle (c : c17_case) : option N :=
       if forallb (N.eqb 0) ttls then None
       else if is_event_key prefix k then None
       else Some 0
-  | KEngineTtl e prefix ttl_ms evs => ttl_oracle e prefix ttl_ms [] evs
+  | KEngineTtl e prefix ttl_ms evs fin =>
+      (* whatever expired: a key that reads absent can be created again, one that reads present cannot *)
+      let fin_ok := forallb (fun p => let '(_, got, res) := p in
+                                      match got with None => wres_eqb res WOk | Some _ => wres_eqb res WFalse end) fin in
+      match ttl_oracle e prefix ttl_ms [] evs with
+      | Some 2 => Some 2         (* memkv's timer removed a young index (finding C17-F2): what follows is its consequence *)
+      | o => worse o (ok_if fin_ok)
+      end
   end.
